@@ -623,7 +623,7 @@ func (d *partialDoc) add(key string, val *lazyNode, options *ApplyOptions) error
 
 func (d *partialDoc) get(key string, options *ApplyOptions) (*lazyNode, error) {
 	if key == "" {
-		return d.self, nil
+		return d.current(), nil
 	}
 
 	if d.obj == nil {
@@ -635,6 +635,16 @@ func (d *partialDoc) get(key string, options *ApplyOptions) (*lazyNode, error) {
 		return v, fmt.Errorf("unable to get nonexistent key: %s: %w", key, ErrMissing)
 	}
 	return v, nil
+}
+
+// current returns a node for the document as it is now. self only remembers
+// the text the document was parsed from and does not see the earlier
+// operations of a patch, so it must not be handed out as the value.
+func (d *partialDoc) current() *lazyNode {
+	if d.self == nil {
+		return nil
+	}
+	return &lazyNode{raw: d.self.raw, doc: d, which: eDoc}
 }
 
 func (d *partialDoc) remove(key string, options *ApplyOptions) error {
@@ -736,7 +746,7 @@ func (d *partialArray) get(key string, options *ApplyOptions) (*lazyNode, error)
 	}
 
 	if key == "" {
-		return d.self, nil
+		return d.current(), nil
 	}
 
 	idx, err := strconv.Atoi(key)
@@ -760,6 +770,14 @@ func (d *partialArray) get(key string, options *ApplyOptions) (*lazyNode, error)
 	}
 
 	return d.nodes[idx], nil
+}
+
+// current returns a node for the array as it is now (see partialDoc.current).
+func (d *partialArray) current() *lazyNode {
+	if d.self == nil {
+		return nil
+	}
+	return &lazyNode{raw: d.self.raw, ary: d, which: eAry}
 }
 
 func (d *partialArray) remove(key string, options *ApplyOptions) error {
